@@ -50,7 +50,7 @@ func c09bulk(c *mon.Ctx) {
 		{"and-or", func() *model.Expr { return model.Bin(model.OOr, model.Bin(model.OAnd, L(model.Bool(true)), L(model.Bool(false))), L(model.Bool(true))) }},
 		{"values", func() *model.Expr { return model.Bin(model.OEq, L(model.Ent("NS::T", "x y")), L(model.Str("é\n\"\\"))) }},
 	}
-	shapes := []string{"elements of one set", "values of one record", "when-clauses of one policy", "policies of one policy set document"}
+	shapes := []string{"elements of one set", "values of one record", "when-clauses of one policy", "policies of one policy set document", "operands of one && chain", "operands of one + chain"}
 	const k = 1200
 	c.ParFor("bulk", len(templates)*len(shapes)*2, func(w *mon.W, i int) {
 		t, shape, own := templates[i%len(templates)], shapes[(i/len(templates))%len(shapes)], i/(len(templates)*len(shapes)) == 0
@@ -122,6 +122,18 @@ func c09bulk(c *mon.Ctx) {
 				mp.Conds = []model.Cond{{When: true, Body: model.SetE(es...)}}
 			case "values of one record":
 				mp.Conds = []model.Cond{{When: true, Body: model.RecE(keys, es)}}
+			case "operands of one && chain", "operands of one + chain":
+				// left-associative chains, as the text parser builds them for `a && b && ...`:
+				// legal in text up to 4096 operands, and as deep in JSON as they are long
+				op := model.OAnd
+				if shape == "operands of one + chain" {
+					op = model.OAdd
+				}
+				chain := es[0]
+				for _, e := range es[1:] {
+					chain = model.Bin(op, chain, e)
+				}
+				mp.Conds = []model.Cond{{When: true, Body: chain}}
 			default:
 				for j, e := range es {
 					mp.Conds = append(mp.Conds, model.Cond{When: j%3 != 0, Body: e})
@@ -177,6 +189,23 @@ func c09bulk(c *mon.Ctx) {
 					}
 					bodies = append(bodies, byKey[kk])
 				}
+			case "operands of one && chain", "operands of one + chain":
+				n := a.Conditions[0].Body
+				for len(bodies) < k-1 {
+					var l, rr ast.IsNode
+					switch b := n.(type) {
+					case ast.NodeTypeAnd:
+						l, rr = b.Left, b.Right
+					case ast.NodeTypeAdd:
+						l, rr = b.Left, b.Right
+					default:
+						fail("wrong tree", fmt.Sprintf("chain of %d operands decoded to a chain of %d", k, len(bodies)+1))
+						return
+					}
+					bodies = append(bodies, rr)
+					n = l
+				}
+				bodies = append(bodies, n)
 			default:
 				if len(a.Conditions) != k {
 					fail("wrong tree", fmt.Sprintf("%d clauses decoded to %d", k, len(a.Conditions)))
